@@ -7,6 +7,7 @@ import TjdModel.Autojac.Typing
 import TjdModel.Autojac.Pipeline
 import TjdModel.Autojac.Prog
 import TjdModel.Autojac.Spec
+import TjdModel.Autojac.Heap
 namespace Tjd.Driver
 open Tjd SExp
 
@@ -180,11 +181,74 @@ def handleJacobian (req : SExp) : Option SExp := do
   pure (list [list [atom "vals", list (p.infos.map fun i => ofRats i.vals)],
               list (atom "jac" :: blocks)])
 
+/-! ### C06 histories on the heap with storage identities -/
+def heapS (H : Heap Rat) (report : List Nat) : SExp :=
+  list (report.map fun k => list [ofNat k, match H.grad k with
+    | none => atom "none"
+    | some (s, v) => list [ofNat s, ofRats v]])
+
+/-- deposit of a call = its result on the all-`None` state; it is then accumulated through the heap by
+    `accumulateH true` (sources live in a storage allocated by the call: the aggregator's output) -/
+def depositOnHeap (o : Outcome Rat) (keys : List Nat) (H : Heap Rat) : Heap Rat × Option Err :=
+  match o.err with
+  | some e => (H, some e)
+  | none =>
+    let src := H.next
+    let H1 : Heap Rat := { H with next := H.next + 1 }
+    let g := keys.filterMap fun k => (o.grads k).map fun v => (k, src, v)
+    (accumulateH true g H1, none)
+
+def handleHistory (req : SExp) : Option SExp := do
+  let p ← parseProg req
+  let (E, ndim) := p.engine
+  let report ← natList? (← req.field1? "report")
+  let ops ← req.field? "ops"
+  let empty : Grads Rat := fun _ => none
+  let mut H : Heap Rat := { grad := fun _ => none, next := 0 }
+  let mut out : List SExp := []
+  for op in ops do
+    let mut err : Option Err := none
+    match op with
+    | list [atom "zero", k] => H := H.user (.zero (← k.nat?))
+    | list [atom "none", k] => H := H.user (.setNone (← k.nat?))
+    | list [atom "add", k, v] => H := H.user (.addConst (← k.nat?) (← ratList? v))
+    | list [atom "set", k, v] =>      -- the user assigns a new tensor: k.grad = tensor(v)
+      let k ← k.nat?
+      let v ← ratList? v
+      let H0 := H
+      H := { grad := fun j => if j = k then some (H0.next, v) else H0.grad j, next := H0.next + 1 }
+    | list (atom "backward" :: _) =>
+      let tensors ← natList? (← op.field1? "tensors")
+      let inputs ← natList? (← op.field1? "inputs")
+      let A ← parseAgg (← op.field? "agg")
+      let chunk ← parseChunk (← op.field1? "chunk")
+      let o := backward E tensors inputs A chunk true empty
+      let (H', e) := depositOnHeap o inputs H
+      H := H'
+      err := e
+    | list (atom "mtl" :: _) =>
+      let losses ← natList? (← op.field1? "losses")
+      let features ← natList? (← op.field1? "features")
+      let tps ← (← op.field? "tasks").mapM natList?
+      let shared ← natList? (← op.field1? "shared")
+      let A ← parseAgg (← op.field? "agg")
+      let chunk ← parseChunk (← op.field1? "chunk")
+      let o := mtlBackward E ndim losses features tps shared A chunk true empty
+      let keys := (tps.flatten ++ shared).eraseDups
+      let (H', e) := depositOnHeap o keys H
+      H := H'
+      err := e
+    | _ => none
+    out := out ++ [list [list [atom "err", match err with | none => atom "none" | some e => errS e],
+                         list [atom "grads", heapS H report]]]
+  pure (list out)
+
 end AutojacD
 
 def handlers : List (String × (SExp → Option SExp)) :=
   [("typing", TypingD.handle), ("backward", AutojacD.handleBackward),
-   ("mtl", AutojacD.handleMtl), ("jacobian", AutojacD.handleJacobian)]
+   ("mtl", AutojacD.handleMtl), ("jacobian", AutojacD.handleJacobian),
+   ("history", AutojacD.handleHistory)]
 
 def handleLine (line : String) : String :=
   match SExp.parse line with
